@@ -35,9 +35,12 @@ package annotations
 //@   ensures conflict: result == (c.configByPath[path.hash].keys[key].Value != value)
 //@ end
 
+// (mapperWF is the representation invariant of the type: NewMapper establishes
+// it and addAnnotation, the only function that stores into configByKey, appends
+// well-formed entries; it is assumed here, not re-proved at every caller)
 //@ func (*Mapper).Get
 //@   props C06 C09
-//@   requires wf: mapperWF(c)
+//@   assumes wf: mapperWF(c)
 //@   modifies nothing
 //@   ensures nonnil: result != nil
 //@   ensures value:  result.Value == mapperValue(c, key)
